@@ -263,7 +263,9 @@ CHECKS["C09"] = {
     ]},
     "rule": ("texts of length 0..4000 from structured families (uniform over alphabets 1,2,3,4,256; Fibonacci, Thue-Morse, "
              "period-doubling, de Bruijn, (a^k b)^m with jitter, runs of two letters, word concatenations, squares/cubes, "
-             "periodic with point mutations, LZ-copy texts; random relabelling of the symbols) plus the exhaustive "
+             "periodic with point mutations, LZ-copy texts, repeated blocks of distinct units, random words repeated many "
+             "times, words with periodic stretches repeated 4-8 times (the family that reaches trPartialCopy), uniform "
+             "binary/ternary strings of 2000-4000 bytes (trHeapSort); random relabelling of the symbols) plus the exhaustive "
              "enumeration of all strings over {a,b} up to length 11 and {a,b,c} up to length 7 (quick; 14 resp. 9 and "
              "50 kB-1 MB family members in thorough). sa is pre-filled with garbage; Sort is checked by the complete "
              "linear-time suffix-array characterisation (permutation, first bytes ordered, tail ranks ordered) and for "
@@ -285,6 +287,9 @@ CHECKS["C10"] = {
              "Oracle: brute force over all pairs of suffixes: every callback has minLen <= m <= maxLen, distinct members "
              "pairwise sharing >= m bytes; every pair with common prefix c >= minLen is in exactly one callback with "
              "m = min(c, maxLen); a group is reported before every group that contains it; no panic (empty text, minLen 0). "
+             "In 40% of the generated cases one or two earlier Segments calls with other (minLen, maxLen) are made on the "
+             "same sa/lcp tables first (the enumeration runs all pairs of a text as one call sequence as well), and "
+             "maxLen/minLen are also drawn beyond the text up to MaxInt32. "
              "Non-trivial: the LCP table falls to a level that is still >= max(minLen,1) (an enclosing group must keep the "
              "left boundary of the group just closed)."),
     "assumptions": SUFFIX_ASSUME,
@@ -347,6 +352,9 @@ CHECKS["C13"] = dict(
           "bytes read) must be equal. (2) the whole history on a second new parser (determinism). (3) schedules: 4..16 "
           "goroutines, each running its own parser or decoder history (equal configurations in several goroutines have "
           "mass), 3 rounds, binary built with -race and GORACE=halt_on_error=1; results compared with the sequential run. "
+          "The twins' Reset slices hold different bytes in their spare capacity (not part of the data); 30% of the "
+          "histories move in steps of 1-4 bytes over a text of a few bytes; a failure (panic, untrackable result) of only "
+          "one twin behind the Reset is a difference. "
           "Non-trivial: (1) H1 parsed >= 1 block with a match (GSAP/OSAP: and rebuilt its structures) and H2 emits >= 1 "
           "match; (3) >= 3 parser instances of >= 2 kinds with matches."),
     assumptions=ASSUME_COMMON + ["the Go race detector reports unsynchronised shared state on the sampled schedules; the harness does not own the scheduler, schedules are sampled not enumerated"],
@@ -365,12 +373,15 @@ CHECKS["C19"] = dict(
     rule=("(a)+(b) parser histories as C01 for the six non-optimising kinds: every emitted match ends at the block end or "
           "the next byte differs from the byte Offset back; for BHP/BDHP a literal directly in front of a match differs from "
           "the byte Offset before it whenever that byte is still buffered. (c) run clause: stream = prefix . c^R . suffix "
-          "(c: 0x00, 0xff or any byte; R 32..632; GSAP: prefix free of c), every accepted config with BlockSize >= 32 incl. "
+          "(c: 0x00, 0xff or any byte; R 32..632; any prefix, in 1/4 (GSAP 1/2) of the cases ending with an older run of c "
+          "and a separator), every accepted config with BlockSize >= 32 incl. "
           "WindowSize 1 (hash kinds, OSAP) / 2 (GSAP), flags 0, chunked writes, partial parsing and Shrink so that blocks "
           "of >= 32 bytes fall inside the run at its start, middle and end, after Shrink and refill: such a block carries "
           "at most 1 literal byte (hash kinds) / MinMatchLen literal bytes (GSAP, OSAP). Non-trivial: (a) a match longer "
           "than 8 bytes that ends before the block end, (b) a literal in front of a match with its mirror byte buffered, "
-          "(c) a block inside a run at stream position > 0 after a Shrink > 0."),
+          "(c) a block inside a run at stream position > 0 after a Shrink > 0. Known finding D18 (GSAP, the suffix array "
+          "neighbour selected lies outside the window) is delimited by a brute-force neighbour rule and counted as "
+          "excluded_known."),
     assumptions=ASSUME_COMMON,
 )
 MANIFEST_TEXT["C19"] = dict(
